@@ -103,12 +103,19 @@ def _setup():
     shims.patch_spectrum_dtype(dadi.Spectrum)
 
 
-def make_body(k, n, mode, valued, perm, kw):
+def make_body(k, n, mode, valued, perm, kw, warm=False):
     def body(env):
         import dadi
         from dadi import Numerics
         xs = [env.real('x%d' % i, lo=0, lo_open=True) for i in range(k)]
-        if k <= 3:
+        if warm:
+            # the SAME extrapolating function object is first called with another list of grids (sizes k+1..2k, their
+            # own x values): the call under test must not depend on that earlier call
+            ws = [env.real('w%d' % i, lo=0, lo_open=True) for i in range(k)]
+            for i in range(k - 1):
+                env.assume(ws[i] < ws[i + 1])
+            xs = xs + ws
+        if k <= 3 and not warm:
             # no order assumed: every ordering of the grid sizes is covered symbolically
             for i in range(k):
                 for j in range(i):
@@ -121,7 +128,7 @@ def make_body(k, n, mode, valued, perm, kw):
         pts_l = [10 * (i + 1) for i in perm]
         del LOGS[:]
         returned = []
-        ASSUME_POS[0] = (valued == 'spectrum' and k >= 3)
+        ASSUME_POS[0] = (valued == 'spectrum' and (k >= 3 or warm))
 
         def poly(i):
             v = coef[0] + 0 * xs[i]
@@ -153,6 +160,10 @@ def make_body(k, n, mode, valued, perm, kw):
         else:
             f = Numerics.make_extrap_func(model, extrap_x_l=xl)
         with np.errstate(all='ignore'):
+            if warm:
+                f(7, [10 * (k + i + 1) for i in range(k)])
+                del LOGS[:]
+                del returned[:]
             if kw:
                 res = f(7, pts=list(pts_l))
             else:
@@ -192,7 +203,7 @@ def make_body(k, n, mode, valued, perm, kw):
                     with np.errstate(all='ignore'):
                         ratio = expected[j] / best
                         pos = ratio > 0
-                        if valued == 'spectrum' and k >= 3 and not pos:
+                        if valued == 'spectrum' and (k >= 3 or warm) and not pos:
                             continue  # outside the claim (see _fresh_log10)
                         failed = abs(np.log10(ratio)) > 10
                 # "decades away" is only defined for a positive ratio; there a masked Spectrum and a plain
@@ -298,5 +309,12 @@ def units(tier, seed):
                                  params=dict(k=k, n=n, mode=mode, valued=valued, perm=list(perm), kw=kw),
                                  setup=_setup, min_obligations=n, timeout_s=900 if tier == 'thorough' else 400,
                                  expect_paths=(1 if k == 1 else 2), maxpaths=4000, query_timeout_ms=120000))
+    for k in ((2, 3) if tier == 'quick' else (2, 3, 4)):
+        for mode, valued in (('lin', 'attr'), ('lin', 'spectrum'), ('log', 'attr')):
+            perm = tuple(range(k))
+            us.append(H.Unit('reuse-k%d-%s-%s' % (k, mode, valued), make_body(k, 2, mode, valued, perm, False, warm=True),
+                             params=dict(k=k, n=2, mode=mode, valued=valued, perm=list(perm), reuse=True), setup=_setup,
+                             min_obligations=2, timeout_s=900 if tier == 'thorough' else 400, maxpaths=4000,
+                             query_timeout_ms=120000))
     us.append(H.Unit('misc-reject-kw', misc_body, setup=_setup, min_obligations=6))
     return us
